@@ -141,7 +141,7 @@ Section Hashes.
     date_str tmv ++ [84] ++ pad2 (tm_hour tmv) ++ pad2 (tm_min tmv) ++ pad2 (tm_sec tmv) ++ [90].
 
   Lemma timestamps_s3_headers t :
-    timestamps time_calls_aws_sign_s3_headers strftime_aws_sign_s3_headers t =
+    timestamps time_calls_aws_sign_s3_headers timefns_aws_sign_s3_headers strftime_aws_sign_s3_headers t =
     Some [(b "datetime", datetime_str (gmtime t)); (b "date", date_str (gmtime t))].
   Proof. unfold timestamps. generalize (gmtime t). intros tmv. vm_compute. reflexivity. Qed.
 
@@ -181,7 +181,7 @@ Section Hashes.
 
   (* ---------- generic service (EC2, SNS, SES, ...) ---------- *)
   Lemma timestamps_svc_headers t :
-    timestamps time_calls_aws_sign_svc_headers strftime_aws_sign_svc_headers t =
+    timestamps time_calls_aws_sign_svc_headers timefns_aws_sign_svc_headers strftime_aws_sign_svc_headers t =
     Some [(b "datetime", datetime_str (gmtime t)); (b "date", date_str (gmtime t))].
   Proof. unfold timestamps. generalize (gmtime t). intros tmv. vm_compute. reflexivity. Qed.
 
@@ -223,7 +223,7 @@ Section Hashes.
 
   (* ---------- DynamoDB ---------- *)
   Lemma timestamps_dynamodb_headers t :
-    timestamps time_calls_aws_sign_dynamodb_headers strftime_aws_sign_dynamodb_headers t =
+    timestamps time_calls_aws_sign_dynamodb_headers timefns_aws_sign_dynamodb_headers strftime_aws_sign_dynamodb_headers t =
     Some [(b "datetime", datetime_str (gmtime t)); (b "date", date_str (gmtime t))].
   Proof. unfold timestamps. generalize (gmtime t). intros tmv. vm_compute. reflexivity. Qed.
 
@@ -260,7 +260,7 @@ Section Hashes.
 
   (* ---------- S3, query-string (presigned URL) variant ---------- *)
   Lemma timestamps_s3_querystr t :
-    timestamps time_calls_aws_sign_s3_querystr strftime_aws_sign_s3_querystr t =
+    timestamps time_calls_aws_sign_s3_querystr timefns_aws_sign_s3_querystr strftime_aws_sign_s3_querystr t =
     Some [(b "datetime", datetime_str (gmtime t)); (b "date", date_str (gmtime t))].
   Proof. unfold timestamps. generalize (gmtime t). intros tmv. vm_compute. reflexivity. Qed.
 
